@@ -332,6 +332,27 @@ class Wire:
         toks = []
         constructs = set()
         items = {}
+        # parameters through which this function reaches the byte stream: generic Read/Write parameters (or refs to them)
+        src = body if body.kind != "Closure" else self.prog.bodies.get(body.parent, body)
+        io_gen = set(g["ty"] for g in src.raw.get("bounds", []) if g["tr"] in ("std::io::Read", "std::io::Write", "std::io::BufRead"))
+        io_locals = set()
+        for i in range(1, body.argc + 1):
+            ty = body.locals[i]["ty"].replace("&mut ", "").replace("&", "").strip()
+            if ty in io_gen:
+                io_locals.add(i)
+
+        def touches_stream(t_):
+            if not io_locals:
+                return True
+            for a_ in t_["args"]:
+                if a_.get("k") in ("copy", "move"):
+                    r_ = body.resolve_place(a_["pl"])
+                    if r_[0] in io_locals:
+                        return True
+            return False
+
+        def is_stream_tok(k_):
+            return k_.startswith(("INT", "LONG", "RAW:", "RECUR", "BLOCKHDR"))
 
         def stars(k, n):
             return k + "*" * n
@@ -424,6 +445,17 @@ class Wire:
                     items.setdefault(bi, []).append(("tok", stars("RECUR", ld)))
                     continue
             sub = self.summary(cal.key, sub_sigma, depth + 1, stack)
+            if not touches_stream(t):
+                # the callee is not handed the stream: it can only contribute conversions
+                for x in sub["tokens"]:
+                    if not is_stream_tok(x.kind):
+                        toks.append(Tok(x.kind, x.loop + ld, x.ok and okf, x.loc, x.via, bi))
+                if sub["paths"]:
+                    alts_ = frozenset(tuple(stars(y, ld) for y in p_ if not is_stream_tok(y)) for p_ in sub["paths"])
+                    if alts_ and alts_ != frozenset([()]):
+                        items.setdefault(bi, []).append(("alts", alts_))
+                constructs |= set((a_, v_, o_ and okf) for a_, v_, o_ in sub["constructs"])
+                continue
             for x in sub["tokens"]:
                 toks.append(Tok(x.kind, x.loop + ld, x.ok and okf, x.loc, x.via, bi))
             if sub["paths"] is None:
